@@ -58,10 +58,10 @@ def fixed_calls():
     # (found by sched.shared_names()): pairs of calls that need different values of that scratch
     for nm, sc in (("opcls-round0", "R <- round(DS_1);"), ("opcls-round2", "R <- round(DS_1, 2);"),
                    ("opcls-trunc0", "R <- trunc(DS_1);"), ("opcls-trunc1", "R <- trunc(DS_1, 1);"),
-                   ("opcls-join-a", 'R <- inner_join(DS_1 as a, DS_2[sub Id_2 = "2020Q1"] as b rename a#Me_1 to A1, b#Me_1 to B1, a#Me_2 to A2, b#Me_2 to B2);'),
-                   ("opcls-join-b", 'R <- inner_join(DS_1[sub Id_2 = "2020Q1"] as a, DS_2 as b rename a#Me_1 to A1, b#Me_1 to B1, a#Me_2 to A2, b#Me_2 to B2);'),
-                   ("opcls-ljoin-a", 'R <- left_join(DS_1 as a, DS_2[sub Id_2 = "2020Q1"][rename Me_1 to Me_3, Me_2 to Me_4] as b);'),
-                   ("opcls-ljoin-b", 'R <- left_join(DS_2[sub Id_2 = "2020Q1"][rename Me_1 to Me_3, Me_2 to Me_4] as b, DS_1[sub Id_2 = "2020Q1"] as a);'),
+                   ("opcls-join-a", 'R <- inner_join(DS_1 as a, DS_2[sub Id_1 = 1] as b rename a#Me_1 to A1, b#Me_1 to B1, a#Me_2 to A2, b#Me_2 to B2);'),
+                   ("opcls-join-b", 'R <- inner_join(DS_1[sub Id_1 = 1] as a, DS_2 as b rename a#Me_1 to A1, b#Me_1 to B1, a#Me_2 to A2, b#Me_2 to B2);'),
+                   ("opcls-ljoin-a", 'R <- left_join(DS_1 as a, DS_2[sub Id_1 = 1][rename Me_1 to Me_3, Me_2 to Me_4] as b);'),
+                   ("opcls-ljoin-b", 'R <- left_join(DS_2[sub Id_1 = 1][rename Me_1 to Me_3, Me_2 to Me_4] as b, DS_1[sub Id_1 = 1] as a);'),
                    ("opcls-an-num", "R <- sum(DS_1 over (partition by Id_1 order by Id_2));"),
                    ("opcls-an-int", "R <- sum(DS_1[calc Me_1 := cast(Me_1, integer), Me_2 := cast(Me_2, integer)] over (partition by Id_1 order by Id_2));"),
                    ("opcls-an-cnt", "R <- count(DS_1 over (partition by Id_1 order by Id_2));"),
@@ -226,7 +226,7 @@ def _scenario_child(scn, forced=None, est_steps=20000):
         open_conns = [] if failure else [c._database for c in SIM.live_open_connections()]
         idg, sdg = s.interleaving_digest()
         return {"results": results, "failure": failure, "hazards": list(shim.HAZARDS)[:5], "open_conns": open_conns,
-                "schedule": s.schedule(), "switch_where": [w for (_s, _f, _t, w) in s.switches][:200], "steps": s.steps,
+                "schedule": s.schedule(), "switch_where": [w for (_s, _f, _t, w, _o) in s.switches][:200], "steps": s.steps,
                 "thread_steps": {n: t["steps"] for n, t in s.threads.items()},
                 "shared_events": s.shared_events, "interleaving": idg, "shared_digest": sdg,
                 "lock_acquisitions": sum(l.acquisitions for l in sims), "lock_contended": sum(l.contended for l in sims),
